@@ -630,12 +630,29 @@ func (a *A) parserFirst() *ssa.Call {
 		}
 		ifs := ifsOn(nd, func(v ssa.Value) bool { x, _, ok := lenTest(v); return ok && x == ssa.Value(g) })
 		ok := false
+		escapes := ""
 		for _, ci := range ifs {
 			_, tWhenEmpty, _ := lenTest(ci.V)
 			nb, excl := ci.when(!tWhenEmpty)
 			if excl && nb.Dominates(s.In.Block()) {
 				ok = true
+				// every non-empty group reaches parseData: from the non-empty edge no path leaves (returns, or goes round to
+				// the next addUnlocked/dumpUnlocked) without passing the call
+				if nb != s.In.Block() {
+					for b := range reachableFrom(nb, map[*ssa.BasicBlock]bool{s.In.Block(): true}) {
+						if b == g.Block() {
+							escapes = "a non-empty group can be dropped: from the non-empty edge the next " + src + " is reached without parseData (and so without the custom parser) having seen the group"
+						} else if blockReturn(b) != nil && escapes == "" {
+							escapes = "a non-empty group can be dropped: from the non-empty edge a return is reached without parseData having seen the group"
+						}
+					}
+				}
 			}
+		}
+		if escapes != "" {
+			a.R.Bad(rule, "parseData/call-site/every-group-parsed/after-"+src, a.ipos(s.In), escapes)
+		} else if ok {
+			a.R.OK(rule, "parseData/call-site/every-group-parsed/after-"+src, a.ipos(s.In), "every path from the non-empty edge of the "+src+" result passes the parseData call: no assembled unit is withheld from the parser")
 		}
 		once := !canFollowSameActivation(g, s.In)
 		a.R.Check(ok && once, rule, key, a.ipos(s.In), "parseData("+src+" result) is dominated by the non-empty edge of that result and executes at most once per result: each non-empty group is parsed exactly once (R1 shows it is parsed at least once in the drain)",
